@@ -15,6 +15,26 @@ the event interpreter `_do` (it is part of the history on both sides: op 0).
       | ["w", text]                   sys.stdout.write(text)
       | ["r", prompt]                 input(prompt)        (prompt: str or int)
       | ["r0"]                        input()
+  every other way of writing to standard output (the property: "what student code wrote"; same text as the forms above):
+      | ["wl", [text...]]             sys.stdout.writelines([...])
+      | ["pf", [value...], sep, end]  print(*values, sep=sep, end=end, file=sys.stdout)
+      | ["pfl", [value...], sep, end] print(*values, sep=sep, end=end, flush=True)
+      | ["p0", [value...]]            print(*values)            (default sep / end)
+      | ["fl"]                        sys.stdout.flush()        (writes nothing)
+  many reads in one tight loop (limit histories, search-only):
+      | ["rn", n, prompt]             for _ in range(n): input(prompt)
+
+THE CAPTURE BUFFER (round 4).  With real printing allowed the sandbox captures through PrintingStringIO (a tee to the
+console) instead of io.StringIO.  The property does not mention the buffer: what is recorded must be the same.  The
+switches are annotations that model and oracle ignore (the real runner applies them; the console is swallowed):
+  case["tee0"] = "cmd_allow" | "sb_allow"       switched on before the setup execution (the whole history is tee'd)
+  op["tee"]    = "cmd_allow" (commands.allow_function('print')) | "sb_allow" (Sandbox.allow_function('print'))
+               | "off" (Sandbox.clear_mocked_function('print'))            applied just before the op
+  {"k": "set_input", "arg": ["callable", c], "clear": true, "via": "allow_real_io"}   commands.allow_real_io() with
+               builtins.input replaced by CALLABLES[c] for the duration (= set_input(that callable) + tee on)
+  {"k": "clear_input", "via": "block_real_io"}                              commands.block_real_io() (= clear_input + tee off)
+  exec op of kind "run" with "real_io": c      Sandbox.run(..., real_io=True), builtins.input = CALLABLES[c]
+               (= set_input(callable c); the execution, tee'd; clear_input)
 
 OBJECTS THAT OUTLIVE AN EXECUTION (the "survivor" routes).  Student code can keep what one execution gave it
 and use it in a later one: a stored reference to `input` (`ask = input`), to `print`, a helper module imported by
@@ -41,9 +61,13 @@ execution itself, other slots by a `keep` event; an unknown slot means "the curr
       | ["kpf", slot, [value...], sep, end] print(..., file=stored_stdout)
       | ["dw", slot, [value...], sep, end]  def show(*a, file=sys.stdout, **k) defined at `keep` time
       | ["hkw", slot, text]                 helper_module.kw(text): `out = sys.stdout` at import time, out.write(text)
+      | ["kwl", slot, [text...]]            stored_stdout.writelines([...])
 """
+import contextlib
+import io
 import json
 import os
+import sys
 
 from common import enc_str
 
@@ -95,6 +119,16 @@ def _base(e, inp=None, pr=None):
         return (inp or input)(e[1])
     elif k == 'r0':
         return (inp or input)()
+    elif k == 'wl':
+        sys.stdout.writelines(e[1])
+    elif k == 'pf':
+        (pr or print)(*e[1], sep=e[2], end=e[3], file=sys.stdout)
+    elif k == 'pfl':
+        (pr or print)(*e[1], sep=e[2], end=e[3], flush=True)
+    elif k == 'p0':
+        (pr or print)(*e[1])
+    elif k == 'fl':
+        sys.stdout.flush()
     return _NOREAD
 def _mkgen(evs, captured):
     inp, pr = (input, print) if captured else (None, None)
@@ -105,8 +139,12 @@ def _mkgen(evs, captured):
 def _step(e, got):
     k = e[0]
     v = _NOREAD
-    if k in ('p', 'w', 'r', 'r0'):
+    if k in ('p', 'w', 'r', 'r0', 'wl', 'pf', 'pfl', 'p0', 'fl'):
         v = _base(e)
+    elif k == 'rn':
+        f = input
+        for _ in range(e[1]):
+            got.append(f(e[2]))
     elif k == 'keep':
         _keep(e[1])
     elif k == 'kr':
@@ -131,6 +169,8 @@ def _step(e, got):
         _ref(e[1])['dw'](*e[2], sep=e[3], end=e[4])
     elif k == 'hkw':
         _ref(e[1])['mod'].kw(e[2])
+    elif k == 'kwl':
+        _ref(e[1])['out'].writelines(e[2])
     elif k == 'gnew':
         _gens[e[1]] = _mkgen(e[2], e[3])
     elif k == 'gnext':
@@ -207,7 +247,23 @@ def gen_arg(rng, allow_callable=True):
     return ["callable", rng.randint(0, 1)]
 
 
+def gen_write_form(rng):
+    """the other ways of writing to standard output: writelines, print(file=sys.stdout), print(flush=True), print with
+    default sep / end, and a flush in between"""
+    k = rng.choice(["wl", "wl", "wl", "pf", "pfl", "p0", "fl"])
+    if k == "wl":
+        return ["wl", [gen_text(rng) for _ in range(rng.choice([0, 1, 2, 2, 3]))]]
+    if k == "fl":
+        return ["fl"]
+    vals = [rng.choice([gen_text(rng, rich=False), rng.randint(0, 9), "v"]) for _ in range(rng.randint(0, 3))]
+    if k == "p0":
+        return ["p0", vals]
+    return [k, vals, rng.choice([" ", "", "-", "\n"]), rng.choice(["\n", "\n", "", " ", "!"])]
+
+
 def gen_event(rng):
+    if rng.random() < 0.2:
+        return gen_write_form(rng)
     r = rng.random()
     if r < 0.3:
         vals = [rng.choice([gen_text(rng, rich=False), rng.randint(0, 9), "v"]) for _ in range(rng.randint(0, 3))]
@@ -249,10 +305,29 @@ def gen_case(rng, allow_callable=True, max_ops=8):
     return {"ops": ops}
 
 
-BASE_KINDS = ("p", "w", "r", "r0")
+BASE_KINDS = ("p", "w", "r", "r0", "wl", "pf", "pfl", "p0", "fl", "rn")
+WRITE_KINDS = ("p", "w", "wl", "pf", "pfl", "p0")
 READ_ROUTES = ("kr", "kr0", "hr")
 WRITE_ROUTES = ("kp", "hp", "hw")
-STDOUT_ROUTES = ("kw", "kbw", "kpf", "dw", "hkw")       # gated by KEPT_STDOUT
+STDOUT_ROUTES = ("kw", "kbw", "kpf", "dw", "hkw", "kwl")       # gated by KEPT_STDOUT
+
+
+def norm_event(e):
+    """a base event as the property sees it: a list of ["p", ...] / ["w", text] / ["r", prompt] / ["r0"]"""
+    k = e[0]
+    if k in ("p", "w", "r", "r0"):
+        return [e]
+    if k == "wl":
+        return [["w", "".join(e[1])]]
+    if k in ("pf", "pfl"):
+        return [["p", e[1], e[2], e[3]]]
+    if k == "p0":
+        return [["p", e[1], " ", "\n"]]
+    if k == "fl":
+        return []
+    if k == "rn":
+        return [["r", e[2]]] * e[1]
+    raise ValueError(e)
 
 
 def uses_kept_stdout(case):
@@ -266,6 +341,50 @@ def gen_base_event(rng):
         e = gen_event(rng)
         if e[0] in BASE_KINDS:
             return e
+
+
+# --------------------------------------------------------------------------
+# the capture buffer as a dimension: real printing allowed (PrintingStringIO) through each public switch
+
+def uses_tee(case):
+    return bool(case.get("tee0")) or any(op.get("tee") or op.get("via") or op.get("real_io") is not None
+                                         for op in case["ops"])
+
+
+def add_tee(rng, case):
+    """switch real printing on / off along a generated history (in place).  Half of the time for the whole history
+    (before the setup execution, so that everything kept by it is a PrintingStringIO as well), otherwise mixed: per-op
+    switches through commands.allow_function / Sandbox.allow_function / clear_mocked_function, set_input(callable) ->
+    allow_real_io(), clear_input -> block_real_io(), a plain run -> Sandbox.run(real_io=True)."""
+    if rng.random() < 0.5:
+        case["tee0"] = rng.choice(["cmd_allow", "sb_allow"])
+        if rng.random() < 0.6:
+            return case
+    for op in case["ops"]:
+        r = rng.random()
+        if op["k"] == "set_input" and op["arg"][0] == "callable" and op["clear"]:
+            if r < 0.7:
+                op["via"] = "allow_real_io"
+        elif op["k"] == "clear_input":
+            if r < 0.6:
+                op["via"] = "block_real_io"
+        elif op["k"] == "exec" and op["kind"] == "run" and op["pre"] is None and r < 0.25:
+            op["real_io"] = rng.randint(0, 1)
+        elif r < 0.3:
+            op["tee"] = rng.choice(["cmd_allow", "sb_allow"])
+        elif r < 0.4:
+            op["tee"] = "off"
+    if rng.random() < 0.3:
+        # commands.allow_real_io() ... commands.block_real_io() around a stretch of the history
+        i = rng.randint(0, len(case["ops"]))
+        case["ops"].insert(i, {"k": "set_input", "arg": ["callable", rng.randint(0, 1)], "clear": True,
+                               "via": "allow_real_io"})
+        if rng.random() < 0.7:
+            j = rng.randint(i + 1, len(case["ops"]))
+            case["ops"].insert(j, {"k": "clear_input", "via": "block_real_io"})
+    if not uses_tee(case):
+        case["ops"][0]["tee"] = rng.choice(["cmd_allow", "sb_allow"])
+    return case
 
 
 def _print_parts(rng):
@@ -293,6 +412,8 @@ def gen_route_event(rng, slots, gslots, kept_stdout):
         k = rng.choice(STDOUT_ROUTES)
         if k in ("kw", "kbw", "hkw"):
             return [k, slot, gen_text(rng)]
+        if k == "kwl":
+            return [k, slot, [gen_text(rng) for _ in range(rng.randint(0, 3))]]
         vals, sep, end = _print_parts(rng)
         return [k, slot, vals, sep, end]
     return gen_base_event(rng)
@@ -393,6 +514,18 @@ def _run_source(op):
             lines.append("_got.append(input(%r))" % (e[1],))
         elif e[0] == "r0":
             lines.append("_got.append(input())")
+        elif e[0] == "wl":
+            lines.append("sys.stdout.writelines(%r)" % (list(e[1]),))
+        elif e[0] in ("pf", "pfl"):
+            args = "".join(repr(v) + ", " for v in e[1])
+            lines.append("print(%ssep=%r, end=%r, %s)" % (args, e[2], e[3],
+                                                         "file=sys.stdout" if e[0] == "pf" else "flush=True"))
+        elif e[0] == "p0":
+            lines.append("print(%s)" % ", ".join(repr(v) for v in e[1]))
+        elif e[0] == "fl":
+            lines.append("sys.stdout.flush()")
+        elif e[0] == "rn":
+            lines.append("for _i in range(%d):\n    _got.append(input(%r))" % (e[1], e[2]))
         else:       # a survivor route: through the interpreter the setup execution defined
             lines.append("_step(%r, _got)" % (_as_tuple(e),))
     if op["raises"]:
@@ -415,8 +548,77 @@ def observe_real(sb, err):
             "last_in": None if last is None else list(last.inputs)}
 
 
+@contextlib.contextmanager
+def console_sink():
+    """swallow what the tee buffer echoes to the real console: the object PrintingStringIO echoes to (its class
+    attribute, taken from sys.stdout when pedal was imported), sys.stdout / sys.__stdout__ and file descriptor 1"""
+    from pedal.sandbox import mocked
+    sink = io.StringIO()
+    cls = getattr(mocked, "PrintingStringIO", None)
+    had = cls is not None and "_ORIGINAL_STDOUT" in vars(cls)
+    old_attr = vars(cls)["_ORIGINAL_STDOUT"] if had else None
+    old_out, old_dunder = sys.stdout, sys.__stdout__
+    saved = devnull = None
+    try:
+        old_out.flush()
+        saved = os.dup(1)
+        devnull = os.open(os.devnull, os.O_WRONLY)
+        os.dup2(devnull, 1)
+    except (OSError, ValueError, AttributeError):
+        pass
+    if had:
+        cls._ORIGINAL_STDOUT = sink
+    sys.stdout = sys.__stdout__ = sink
+    try:
+        yield sink
+    finally:
+        sys.stdout, sys.__stdout__ = old_out, old_dunder
+        if had:
+            cls._ORIGINAL_STDOUT = old_attr
+        try:
+            old_out.flush()
+        except (OSError, ValueError, AttributeError):
+            pass
+        if saved is not None:
+            if devnull is not None:
+                os.dup2(saved, 1)
+                os.close(devnull)
+            os.close(saved)
+
+
+@contextlib.contextmanager
+def _real_input(c):
+    """builtins.input = CALLABLES[c] while an API that installs the REAL input() is called"""
+    import builtins
+    old = builtins.input
+    builtins.input = CALLABLES[c]
+    try:
+        yield
+    finally:
+        builtins.input = old
+
+
+def _apply_tee(sb, how):
+    from pedal.sandbox import commands
+    if how == "cmd_allow":
+        commands.allow_function("print")
+    elif how == "sb_allow":
+        sb.allow_function("print")
+    elif how == "off":
+        sb.clear_mocked_function("print")
+    elif how:
+        raise ValueError(how)
+
+
 def run_real(case):
     """Returns (observations per op incl. the setup op, contexts [(output, inputs)], student-side returned values per op)."""
+    if uses_tee(case):
+        with console_sink():
+            return _run_real(case)
+    return _run_real(case)
+
+
+def _run_real(case):
     from pedal.core.report import MAIN_REPORT
     from pedal.core.commands import contextualize_report
     from pedal.sandbox import commands
@@ -426,6 +628,7 @@ def run_real(case):
     contextualize_report(Submission(files={"answer.py": "", HELPER_NAME + ".py": HELPER}))
     sb = commands.get_sandbox()
     obs, student = [], []
+    _apply_tee(sb, case.get("tee0"))
     commands.run(SETUP, filename="answer.py")
     obs.append(observe_real(sb, None))
     student.append([])
@@ -433,12 +636,16 @@ def run_real(case):
         err, got = None, None
         try:
             k = op["k"]
+            _apply_tee(sb, op.get("tee"))
             if k == "exec":
                 fname = "answer.py" if op.get("student_file", True) else None
                 pre = _py_arg(op["pre"])
                 kw = {} if pre is None else {"inputs": pre}
                 before = len(sb._context)
-                if op["kind"] == "run":
+                if op["kind"] == "run" and op.get("real_io") is not None:
+                    with _real_input(op["real_io"]):
+                        sb.run(_run_source(op), filename=fname, real_io=True, **kw)
+                elif op["kind"] == "run":
                     commands.run(_run_source(op), filename=fname, **kw)
                 elif op["kind"] == "call":
                     if op["raises"]:
@@ -451,10 +658,15 @@ def run_real(case):
                     got = list(sb.data.get("_got", []))
             elif k == "clear_output":
                 commands.clear_output()
+            elif k == "set_input" and op.get("via") == "allow_real_io":
+                with _real_input(op["arg"][1]):
+                    commands.allow_real_io()
             elif k == "set_input":
                 commands.set_input(_py_arg(op["arg"]), clear=op["clear"])
             elif k == "queue_input":
                 commands.queue_input(*op["items"])
+            elif k == "clear_input" and op.get("via") == "block_real_io":
+                commands.block_real_io()
             elif k == "clear_input":
                 commands.clear_input()
             else:
@@ -474,6 +686,8 @@ def run_real(case):
 def _arg_of(op):
     k = op["k"]
     if k == "exec":
+        if op.get("real_io") is not None:       # Sandbox.run(real_io=True) starts with set_input(<the real input>)
+            return ["callable", op["real_io"]], True
         return op["pre"], True
     if k == "set_input":
         return op["arg"], op["clear"]
@@ -498,6 +712,8 @@ def walk(ops):
                 callable_on = True
             elif arg[0] == "none":
                 callable_on = False
+        if op["k"] == "exec" and op.get("real_io") is not None and not raises:
+            callable_on = False                 # ... and ends with clear_input()
         yield op, raises
 
 
@@ -529,7 +745,7 @@ def flat_ops(case, view="oracle"):
                 stale = len(e) > 1 and k not in BASE_KINDS and k not in ("gnew", "gnext", "keep") \
                     and e[1] in kept and kept[e[1]] != i
                 if k in BASE_KINDS:
-                    evs.append(e)
+                    evs.extend(norm_event(e))
                 elif k == "keep":
                     kept[e[1]] = i
                 elif k in ("kr", "hr"):
@@ -543,6 +759,9 @@ def flat_ops(case, view="oracle"):
                 elif k in ("kw", "kbw", "hkw"):
                     if not (stale and drop_kept):
                         evs.append(["w", e[2]])
+                elif k == "kwl":
+                    if not (stale and drop_kept):
+                        evs.append(["w", "".join(e[2])])
                 elif k in ("kpf", "dw"):
                     if not (stale and drop_kept):
                         evs.append(["p", e[2], e[3], e[4]])
@@ -557,13 +776,24 @@ def flat_ops(case, view="oracle"):
                         if b[0] in ("r", "r0"):
                             evs.append(read(ev_prompt(b), g[1] and g[2] != i, noarg=b[0] == "r0"))
                         else:
-                            evs.append(b)
+                            evs.extend(norm_event(b))
                 else:
                     raise ValueError(e)
         flat = dict(op)
         flat["events"] = evs
         out.append(flat)
+        if view == "model" and op.get("real_io") is not None:
+            # Sandbox.run(real_io=True) for the model: run(inputs=<callable>) followed by clear_input(); the observation
+            # between the two does not exist on the real side (parse_model drops it)
+            flat["pre"] = ["callable", op["real_io"]]
+            if not raises:
+                flat["_hide"] = True
+                out.append({"k": "clear_input"})
     return out
+
+
+def hidden_model_obs(case):
+    return [i for i, op in enumerate(flat_ops(case, view="model")) if op.get("_hide")]
 
 
 def has_stale_route(case):
@@ -652,8 +882,14 @@ def _dec_list(tok):
     return [] if tok == "" else [_dec(t) for t in tok.split(",")]
 
 
-def parse_model(ans):
+def parse_model(ans, case=None):
     """-> (observations, contexts) in the shape of run_real, or None for bad-request"""
+    if case is not None and uses_tee(case):
+        m = parse_model(ans)
+        if m is not None:
+            hide = set(hidden_model_obs(case))
+            m = ([o for i, o in enumerate(m[0]) if i not in hide], m[1])
+        return m
     if not ans.startswith("ok "):
         return None
     body, _, ctx = ans[3:].partition(" | ")
@@ -747,7 +983,9 @@ def expected(case, default=DEFAULT, view="oracle"):
         k = op["k"]
         returned = None
         if k == "exec":
-            if op["pre"] is not None:
+            if op.get("real_io") is not None:
+                fn, queue = CALLABLES[op["real_io"]], []
+            elif op["pre"] is not None:
                 if op["pre"][0] == "callable":
                     fn, queue = CALLABLES[op["pre"][1]], []
                 else:
@@ -767,6 +1005,8 @@ def expected(case, default=DEFAULT, view="oracle"):
             records.append((text, returned))
             if text:                                 # executions that printed something
                 lines = lines + [ln.rstrip() for ln in text.rstrip().split("\n")]
+            if op.get("real_io") is not None:        # run(real_io=True) ends with clear_input()
+                fn, queue = None, []
         elif k == "clear_output":
             raw, lines = "", []
         elif k == "set_input":
@@ -814,6 +1054,9 @@ def judge(case, real, view="oracle"):
                 # diagnosis only: exactly the text written through a standard output object kept from an earlier
                 # execution is missing
                 sig["shape"] = "kept-stdout-write-lost"
+            if max(len(r["raw"]), len(e["raw"])) > 60:
+                return (sig, "op %d: raw output ...%r (%d chars), expected ...%r (%d chars)"
+                        % (i, r["raw"][-40:], len(r["raw"]), e["raw"][-40:], len(e["raw"])))
             return (sig, "op %d: raw output %r, expected %r" % (i, r["raw"][-60:], e["raw"][-60:]))
         if r["lines"] != e["lines"]:
             shape = "other"
@@ -865,6 +1108,8 @@ def _plain_of(e):
         return ["p", e[2], e[3], e[4]]
     if k in ("hw", "kw", "kbw", "hkw"):
         return ["w", e[2]]
+    if k == "kwl":
+        return ["wl", e[2]]
     return None
 
 
@@ -876,7 +1121,27 @@ def _simpler_route(e):
         return [k, e[1], ["a"], " ", "\n"]
     if k in ("hw", "kw", "kbw", "hkw"):
         return [k, e[1], "a\n"]
+    if k == "kwl":
+        return [k, e[1], ["a\n"]]
     return None
+
+
+def _simpler_base(e):
+    """simpler base events to try in place of e, simplest first"""
+    k = e[0]
+    if k in ("r", "r0"):
+        return [["r", ""]]
+    if k == "rn":
+        return [["rn", e[1], ""]]
+    if k in ("p", "w"):
+        return [["w", "a\n"]]
+    if k == "wl":
+        return [["w", "a\n"], ["wl", ["a\n"]]]
+    if k in ("pf", "pfl"):
+        return [["w", "a\n"], [k, ["a"], " ", "\n"]]
+    if k == "p0":
+        return [["w", "a\n"], ["p0", ["a"]]]
+    return []
 
 
 def shrink(case, still):
@@ -885,9 +1150,27 @@ def shrink(case, still):
     while changed:
         changed = False
         for i in range(len(case["ops"])):
-            c = {"ops": case["ops"][:i] + case["ops"][i + 1:]}
+            c = dict(case, ops=case["ops"][:i] + case["ops"][i + 1:])
             if still(c):
                 case, changed = c, True
+                break
+        if changed:
+            continue
+        # the capture buffer: drop switches that are not needed
+        if case.get("tee0"):
+            c = {k: v for k, v in case.items() if k != "tee0"}
+            if still(c):
+                case, changed = c, True
+                continue
+        for i, op in enumerate(case["ops"]):
+            for key in ("tee", "via", "real_io"):
+                if op.get(key) is not None:
+                    c = json.loads(json.dumps(case))
+                    del c["ops"][i][key]
+                    if still(c):
+                        case, changed = c, True
+                        break
+            if changed:
                 break
         if changed:
             continue
@@ -947,13 +1230,15 @@ def shrink(case, still):
                     continue
                 if e[0] not in BASE_KINDS:
                     continue
-                simple = ["w", "a\n"] if e[0] in ("p", "w") else ["r", ""]
-                if e != simple:
-                    c = json.loads(json.dumps(case))
-                    c["ops"][i]["events"][j] = simple
-                    if still(c):
-                        case, changed = c, True
-                        break
+                for simple in _simpler_base(e):
+                    if e != simple:
+                        c = json.loads(json.dumps(case))
+                        c["ops"][i]["events"][j] = simple
+                        if still(c):
+                            case, changed = c, True
+                            break
+                if changed:
+                    break
             if changed:
                 break
     return case
